@@ -17,7 +17,7 @@ CLAIMED = {
 }
 CLAIMED['C10'] = {
   'text': 'Defaults: the compile-time literal check of every IR primitive type (check of Int32/UInt32/Int64/UInt64, Float32/Float64, '
-          'String, Boolean, Bytes, Void) is proved equal to the acceptance rule of the language reference, and lemmas over these '
+          'String, Boolean, Bytes, Void, Nullable) is proved equal to the acceptance rule of the language reference, the constructors of the IR types are proved to establish the parameter invariants those checks and lemmas assume (min_value / max_value inside the range of the type, floats stored as doubles, lengths and item counts integral), and lemmas over these '
           'specifications and the (C08-proved) runtime validators show that an accepted literal is valid for the validator the '
           'python_types backend constructs for the type (Int, Float, String, Boolean proved for all parameters and literals; Bytes '
           'and Timestamp are listed known findings). Example computation is not under contract yet.',
@@ -110,15 +110,15 @@ CLAIMED['C18'] = {
 }
 CLAIMED['C03'] = {
   'text': 'Only spec errors escape, partly proved: for the literal-check layer of the IR (check and __init__ of Int32/UInt32/Int64/UInt64, '
-          'Float32/Float64, String, Boolean, Bytes, Void in stone/ir/data_types.py) the escape sets are proved (z3): nothing but the documented '
+          'Float32/Float64, String, Boolean, Bytes, Void in stone/ir/data_types.py) the escape sets are proved (z3), as are those of Timestamp.__init__, List.__init__, Map.__init__, Nullable.check and List._check_list_container: nothing but the documented '
           'ValueError / ParameterError that the caller converts can leave them, for every argument of the closed-world universe. The lexer, '
           'the LALR parser and the passes of ir_generator.py are NOT proved (outside the VC generator): the postcondition of specs_to_ir taken '
           'from the statement (returns an API description or raises InvalidSpec with a non-empty message, an integer line and one of the '
           'input paths) is checked on a valid multi-file spec subjected to 1-3 token-level edits (delete / duplicate / swap / replace a token, '
           'change a literal kind, shift indentation, truncate, splice) -- a BOUNDED stand-in.',
-  'note': 'The bounded part found 28 distinct escape sites on the unchanged tree: 7 were repaired (fix: commits 4f1597e, 68f786a, 3666098, '
-          '70f49c3, 1605d5a: unmatched parenthesis, end of input inside a definition, unrecoverable syntax error, misplaced contextual '
-          'keyword, defaults of the wrong kind), 21 in ir_generator.py / data_types.py / api.py are listed as known findings, each identified '
+  'note': 'The bounded part found 28 distinct escape sites on the unchanged tree: 9 were repaired (fix: commits 4f1597e, 68f786a, 3666098, '
+          '70f49c3, 1605d5a, 3e70595, de66bcd: unmatched parenthesis, end of input inside a definition, unrecoverable syntax error, misplaced contextual '
+          'keyword, defaults of the wrong kind, non-integer List arguments -- that one also as the failed proof obligation List.__init__#post --, quote() asserting on user text), 19 in ir_generator.py / data_types.py / api.py are listed as known findings, each identified '
           'by exception type and raising function (contracts/frontend.py: escape_site) so that any other escape is still reported. '
           'Termination is not proved.',
   'design': '7.3 (C03)',
@@ -128,11 +128,11 @@ CLAIMED['C20'] = {
           '(by-name tables = route list). The traversal itself (_find_dependencies_recursive: recursion over mutable sets / defaultdicts with '
           'doc-reference regexes) is NOT proved: the postcondition of specs_to_ir with a whitelist, taken from the statement, is checked on a '
           'two-namespace spec (aliases and alias chains, parents, enumerated subtypes, tag defaults, lists / maps / nullables, doc references '
-          'to types, fields and routes, cross-namespace references) x generated whitelists (subsets of routes incl. versions and *, subsets of '
+          'to types, fields and routes incl. on value-less tags and on fields inherited across namespaces, cross-namespace references) x generated whitelists (subsets of routes incl. versions and *, subsets of '
           'data types) against a reference closure computed independently on the unfiltered description: every closure member retained, '
           'nothing outside it retained, no retained field / parent / subtype / alias target / route signature refers to a removed type, by-name '
           'tables agree, and (every fourth whitelist) the python_types output of the filtered description imports -- a BOUNDED stand-in.',
-  'note': 'Found and fixed: aliases retained while their targets were removed (fix commit recorded as F-C20-1). Not covered: specs beyond the '
+  'note': 'Found and fixed: aliases retained while their targets were removed (fix commit recorded as F-C20-1); the doc of a field inherited from a parent in another namespace was read in the child\'s namespace (KeyError; F-C20-2, fix d226852). Not covered: specs beyond the '
           'one scenario; other backends than python_types for the load check.',
   'design': '7.3 (C20)',
 }
@@ -141,7 +141,7 @@ CLAIMED['C11'] = {
           'every listing of a namespace -- routes, data types, aliases, annotations, annotation types -- sorted by its key and a permutation of '
           'what it was: the step that makes the description independent of declaration order. That the resolution passes commute with file '
           'and definition order is NOT proved: the postcondition from the statement (a canonical signature of the description equals that of '
-          'the reference layout) is checked on a three-namespace spec under generated layouts (file permutations, definition permutations, '
+          'the reference layout) is checked on a three-namespace spec (incl. a struct that inherits across namespaces from a parent whose field types are local names of the parent\'s namespace) under generated layouts (file permutations, definition permutations, '
           'splitting a namespace over 2-4 files, comments, blank lines, trailing whitespace) and, through the mechanically extracted stdin '
           'block of cli.main (slice main@read_stdin), for the same text delivered on standard input -- BOUNDED stand-ins.',
   'note': 'Found and fixed: annotation_types not normalised (0646b04), stdin text split at every occurrence of the word namespace '
@@ -153,9 +153,9 @@ CLAIMED['C07'] = {
           'exactly when decoding leniently under a catch-all base and to refuse it otherwise; the encoders (C05) and the primitive / list / map / '
           'nullable decoders (C06) it composes are proved against Enc / Dec. The property itself -- a relation between two spec versions -- is '
           'NOT proved: two versions A, B of a spec (B = A + an optional and a defaulted field, fields in nested structs, two new tags of an open '
-          'union, a Void tag given a type, a new subtype under a catch-all struct, a new route, an alias introduced for a field type) are '
+          'union, a Void tag given a type, a new subtype under a catch-all struct, tags added to an open union that extends an open union, a new route, an alias introduced for a field type) are '
           'compiled with the generator of the tree; every message encoded under B from generated values is decoded under A and compared with '
-          'an independent A-view projection (unknown fields dropped, unknown tags -> other, unknown subtypes -> base struct, payloads of tags A '
+          'an independent A-view projection (unknown fields dropped, unknown tags -> other for the unions the spec text declares open, unknown subtypes -> base struct, payloads of tags A '
           'knows as Void ignored), strict decoding under A must refuse exactly the messages whose projection dropped something, and every '
           'message encoded under A must decode under B (strict and lenient) to a value that re-encodes to the same message -- BOUNDED stand-ins.',
   'note': 'Proved: determine_struct_tree_subtype (+ C05/C06 carriers). Bounded: json_compat_obj_decode under the two relations on 600 / 8000 '
@@ -189,15 +189,17 @@ CLAIMED['C02'] = {
   'design': '7.3 (C02)',
 }
 CLAIMED['C01'] = {
-  'text': 'Accepts exactly the legal specs, partly proved: for the literal-check layer of the IR primitive types (check / __init__ of the '
-          'integer, float, string, boolean, bytes and void types) acceptance is proved (z3) equal to the rule of the language reference -- a '
-          'default or attribute literal is accepted iff it fits the declared type and its arguments. The rest of the rule set lives in the '
+  'text': 'Accepts exactly the legal specs, partly proved: for the literal-check layer of the IR primitive types (check of the '
+          'integer, float, string, boolean, bytes and void types, Nullable.check, List._check_list_container) acceptance is proved (z3) equal to the rule of the language reference -- a '
+          'default or attribute literal is accepted iff it fits the declared type and its arguments -- and for the type-argument layer (__init__ of the integer and float types, String, Timestamp, List, Map) '
+          'a constructor call is proved to succeed iff the arguments are legal (integers inside the range of the type, real bounds representable as doubles, non-negative lengths / item counts with max >= min, '
+          'a compilable pattern, a String key type) and to raise ParameterError, which the caller turns into the spec error, otherwise. The rest of the rule set lives in the '
           'parser and the passes of ir_generator.py, which are NOT proved: random API models are rendered to text and compiled either as they '
-          'are (must be accepted) or with exactly one violation, from a catalogue of 24 rules of docs/lang_ref.rst, injected at a random '
+          'are (must be accepted) or with exactly one violation, from a catalogue of 28 rules of docs/lang_ref.rst, injected at a random '
           'applicable site (undefined / duplicate / clashing names, illegal inheritance incl. cycles and closed-over-open unions, Void fields, '
           'illegal type arguments and bounds, defaults that do not fit, missing / undefined imports, duplicate routes, unknown or ill-typed '
-          'route attributes, alias cycles): must raise the spec error -- a BOUNDED stand-in.',
-  'note': 'Found and fixed: a type / alias / annotation named like an earlier route crashed with AttributeError (F-C01-1). The catalogue has 24 of '
+          'route attributes, alias cycles, doc references to unknown fields / types / routes / route versions and malformed doc references, also where the same docstring sits validly on another type): must raise the spec error; half of the models carry resolvable doc references that must not make a legal spec refused -- a BOUNDED stand-in.',
+  'note': 'Found and fixed: a type / alias / annotation named like an earlier route crashed with AttributeError (F-C01-1); List(T, min_items=1.5) was accepted (failed obligation List.__init__#post, F-C01-2, fix 3e70595); a malformed :val: reference raised AssertionError (F-C01-3, fix de66bcd). The catalogue has 28 of '
           'the ~45 rules of the reference; syntax and indentation rules are exercised only through C03. Int32(min_value > max_value) is accepted by '
           'the compiler; the reference does not state that rule, so it is not in the catalogue.',
   'design': '7.3 (C01)',
